@@ -11,6 +11,11 @@ from ..refmodel.types import INTS, Cfg, RefReject
 from ..runner import JobResult, Violation
 
 
+import sys as _sys
+
+NATIVE = "<" if _sys.byteorder == "little" else ">"
+
+
 def lib_eq(a, b) -> bool:
     try:
         return bool(a == b)
@@ -77,16 +82,35 @@ def check_case(mode: str, names, endian, align, res: JobResult, tier="quick", on
                     _c02_cuts(inp, o, T, viol, reader, res)
             else:
                 _c01_parsed(inp, o, T, viol, reader, res, eof_tail)
+        if mode == "C02" and eof_tail:
+            # stray bytes behind the last whole element of an [EOF] array: if such an input is accepted, the dump still has exactly the consumed length
+            b0 = next((i for i in ins if i.status == "ok" and i.label == "base" and (only_input is None or i.data.hex() == only_input)), None)
+            if b0 is not None:
+                for extra in (b"\x81", b"\x81\x82", b"\x81\x82\x83", b"\x81\x82\x83\x84\x85"):
+                    o = sc.parse(T, b0.data + extra)
+                    res.evaluations += 1
+                    res.transitions += 1
+                    if not o.ok:
+                        continue
+                    try:
+                        out = o.obj.dumps()
+                    except Exception as e:  # noqa: BLE001
+                        viol("eof-tail:dump-raises", f"in={(b0.data + extra).hex()} parsed to {o.value} but dumps raises {impl.exc_sig(e)}", reader, b0)
+                        break
+                    if len(out) != o.tell:
+                        viol("eof-tail:dump-length", f"in={(b0.data + extra).hex()} ({len(extra)} stray bytes behind the last whole element): consumed {o.tell}, dumped {len(out)} bytes", reader, b0)
+                        break
         # history: the byte order is the one in effect when data is processed - switch it on the loaded object, check the same bytes under
         # the other order, switch back and check again (anything cached per type under one order must not leak into the other)
         base = next((i for i in ins if i.status == "ok" and i.label == "base" and (only_input is None or i.data.hex() == only_input)), None)
         if base is not None:
             other = "<" if endian == ">" else ">"
             try:
-                for now in (other, endian):
+                for now in (other, "@", "!", "=", endian):  # incl. the other spellings the library accepts: native ('@', '=') and network ('!')
                     cs.endian = now
+                    order = now if now in "<>" else (">" if now == "!" else NATIVE)
                     try:
-                        inp2 = sc.model_decode(st, base.data, Cfg(endian=now, align=align), f"endian-history:{now}")
+                        inp2 = sc.model_decode(st, base.data, Cfg(endian=order, align=align), f"endian-history:{now}")
                     except RefReject:
                         continue
                     if inp2.status != "ok":
